@@ -340,12 +340,51 @@ def _conj_set(e):
     return {unparse(e)}
 
 
+def rule_A2_view(ctx, rid='A2'):
+    """View-consistent pairing: `np.repeat(<per-shell>, self.shell_n)` has one entry per sample
+    of the *current view* (shell_n counts the rows after the exploration boundary when the
+    exploration is discarded); `np.concatenate(self.log_l)` has one entry per *stored* row.  A
+    method that pairs the two is only right where the view is the full set: under a
+    `not self.explored` guard, or with the rows taken through the boundary slices as in
+    posterior()."""
+    prog = ctx.program
+    S = prog.cls('Sampler')
+    rows = {'log_l', 'points', 'blobs'}
+    n = 0
+    for name, f in sorted(S.methods.items()):
+        cfg = cfg_of(f)
+        sn = f.self_name
+        reps = [c for c in walk_no_nested(f.node) if isinstance(c, ast.Call) and
+                dotted(c.func) == 'np.repeat' and len(c.args) >= 2 and
+                dotted(c.args[1]) == '%s.shell_n' % sn and cfg.has(c)]
+        if not reps:
+            continue
+        cats = [c for c in walk_no_nested(f.node) if isinstance(c, ast.Call) and
+                dotted(c.func) in ('np.concatenate', 'np.hstack', 'np.vstack') and c.args and
+                isinstance(c.args[0], ast.Attribute) and isinstance(c.args[0].value, ast.Name)
+                and c.args[0].value.id == sn and c.args[0].attr in rows and cfg.has(c)]
+        for c in cats:
+            nid = cfg.node_of(c).id
+            ok = cfg.has_fact(nid, '%s.explored' % sn, False)
+            n += 1
+            ctx.ob(rid, '%s:rows-match-view-counts(%s)' % (f.qualname, c.args[0].attr), ok,
+                   f.where(c),
+                   'all stored rows are paired with the view counts only while the exploration '
+                   'is not finished (the view is the full set)' if ok else
+                   '`%s` takes every stored row, `np.repeat(.., %s.shell_n)` one entry per row '
+                   'of the current view: with the exploration discarded the two have different '
+                   'lengths and `%s` pairs values of different samples or raises IndexError'
+                   % (unparse(c)[:40], sn, name))
+    return n
+
+
 def rule_A2_A6(ctx, rid2='A2', rid6='A6'):
     ctx.rule(rid2, 'posterior() and update_shell_info select the exploration boundary with the '
              'same predicate over the same attributes')
     ctx.rule(rid6, 'exploration-boundary pair: the row boundary (shell_end_exp) and the proposal '
              'boundary (shell_n_sample_exp) are assigned together and applied together')
     prog = ctx.program
+    rule_A2_view(ctx, rid2)
     post = prog.func('Sampler.posterior')
     usi = prog.func('Sampler.update_shell_info')
     cp, tp = _boundary_tests(post)
